@@ -42,9 +42,11 @@ def state_cover_tests(work, depth, warm=False):
     warm: 1 = start from YuniKorn!InitWarm (a placeholder already allocated; the history starts with the 5 operations that
     lead there), 2 = InitWarm2 (in addition a smaller real task of the group is waiting), 3 = InitFull (both nodes filled by a plain application: the reservation regime), 4 = InitPre (full nodes held by a queue
     without guarantee, an application of a guaranteed queue submitted: queue preemption; replay with conf="mcpre"), 5 = InitPre2 (one step further: a victim is marked and its release
-    announced, the asking ask holds a reservation: a preemption in flight), and explore `depth` further operations."""
+    announced, the asking ask holds a reservation: a preemption in flight), 6 / 7 / 8 = InitWarm2 / InitPre2 / InitFull with the
+    Restart action enabled (the core crashes and the shim replays what it knows), and explore `depth` further operations."""
     cfg = "MC_YK_emit%s%d.cfg" % ("w%d" % warm if warm else "", depth)
-    base = open(os.path.join(work, {0: "MC_YK_intended.cfg", 1: "MC_YK_warm.cfg", 2: "MC_YK_warm2.cfg", 3: "MC_YK_full.cfg", 4: "MC_YK_pre.cfg", 5: "MC_YK_pre2.cfg"}[int(warm)])).read()
+    base = open(os.path.join(work, {0: "MC_YK_intended.cfg", 1: "MC_YK_warm.cfg", 2: "MC_YK_warm2.cfg", 3: "MC_YK_full.cfg", 4: "MC_YK_pre.cfg", 5: "MC_YK_pre2.cfg",
+                              6: "MC_YK_warm2_rs.cfg", 7: "MC_YK_pre2_rs.cfg", 8: "MC_YK_full_rs.cfg"}[int(warm)])).read()
     total = depth + WARM_PREFIX[int(warm)]
     base = re.sub(r"MaxHist = \d+", "MaxHist = %d" % total, base).replace("INVARIANT TypeOK", "INVARIANT TypeOK\nINVARIANT EmitTest")
     open(os.path.join(work, cfg), "w").write(base)
@@ -63,7 +65,7 @@ def state_cover_tests(work, depth, warm=False):
     return keep, gen, dist
 
 
-WARM_PREFIX = {0: 0, 1: 5, 2: 6, 3: 7, 4: 10, 5: 12}   # operations in the history the (warm) initial state starts with
+WARM_PREFIX = {0: 0, 1: 5, 2: 6, 3: 7, 4: 10, 5: 12, 6: 6, 7: 12, 8: 7}   # operations in the history the (warm) initial state starts with
 
 
 def simulated_tests(work, num, seed, depth=28):
